@@ -401,7 +401,7 @@ fn check(prop: &str, tier: &str) -> i32 {
             "max_depth": h_maxd,
             "nodes_per_depth": per_depth,
             "wall_cap_hit": h_capped,
-            "preemption_bound_completed_by_all_workers": h_bound,
+            "bound_completed_by_all_workers": h_bound,
             "wall_s": th.elapsed().as_secs_f64(),
         }));
         states.extend(h_states);
